@@ -887,7 +887,7 @@ def run_classes(ctx):
             return
         projects = [base_of(replay_case["desc"])]
     else:
-        projects = [gen_hierarchy(rng) for _ in range(ctx.n(10, 100))]
+        projects = [gen_hierarchy(rng) for _ in range(ctx.n(10, 150))]
     # corpus first
     cdir = os.path.join(core.VERIF, "corpus", "C03")
     corpus = []
